@@ -1,0 +1,40 @@
+//go:build verif
+
+// Contracts (//@ comments, read by /verif/govc) for package zebra: C19 tier B. Built only with -tags verif.
+//
+// ZAPI message decoders checked WITHOUT annotations (see pkg/packet/bgp/zz_contracts_tierb_verif.go for the
+// method): every slice-bounds, index, division and make obligation of the real body is discharged, with calls
+// to functions that have no contract replaced by arbitrary results and effects. Only the two helpers carry a
+// real contract.
+package zebra
+
+//@ props C19
+//@ func HeaderSize
+//@   inline
+//@ func addressByteLength
+//@   modifies nothing
+//@   ensures (result1 == nil ==> result0 == 4 || result0 == 16) && (result1 != nil ==> result0 == 0)
+//@ func (*GetLabelChunkBody).decodeFromBytes
+//@   claims bounds div0 make
+//@ func (*Header).decodeFromBytes
+//@   claims bounds div0 make
+//@ func (*HelloBody).decodeFromBytes
+//@   claims bounds div0 make
+//@ func (*NexthopRegisterBody).decodeFromBytes
+//@   claims bounds div0 make
+//@ func (*NexthopUpdateBody).decodeFromBytes
+//@   claims bounds div0 make
+//@ func (*RegisteredNexthop).decodeFromBytes
+//@   claims bounds div0 make
+//@ func (*interfaceAddressUpdateBody).decodeFromBytes
+//@   claims bounds div0 make
+//@ func (*labelManagerConnectBody).decodeFromBytes
+//@   claims bounds div0 make
+//@ func (*lookupBody).decodeFromBytes
+//@   claims bounds div0 make
+//@ func (*redistributeBody).decodeFromBytes
+//@   claims bounds div0 make
+//@ func (*routerIDUpdateBody).decodeFromBytes
+//@   claims bounds div0 make
+//@ func (*vrfLabelBody).decodeFromBytes
+//@   claims bounds div0 make
